@@ -97,7 +97,13 @@ SCENES_Q = [
     scene('corner-1rect', '0,15,30,50', '30,50,65,80', '20,20,60,60'),
     scene('two-rects-L', '6,8,0,3', '0,3,4,7', '0,0,5,3', '4,4,5,7', extra=['-DPEN=10']),
 ]
-JOBS['C03'] = {'quick': SCENES_Q, 'thorough': []}
+def visg(name, extra=(), **kw):
+    return Job(name, 'C03_visgraph.cpp', list(extra), ['libavoid'], **kw)
+B_VIS = 'PolyLineRouting (naive visibility), A=(0,0,20,40), B=(40,20,60,60), wall W=(20..22,-30)-(38..40,90) with symbolic integer left/right sides (touching A and/or B at the boundaries); every visibility edge with a distance is checked against all shapes; '
+JOBS['C03'] = {'quick': SCENES_Q + [visg('visgraph-touching-incremental', bounds=B_VIS + 'W added in a second transaction (Router::newBlockingShape)')],
+               'thorough': [visg('visgraph-touching-oneshot', ['-DONESHOT'], bounds=B_VIS + 'all shapes in one transaction'),
+                            visg('visgraph-touching-movein', ['-DMOVEIN'], bounds=B_VIS + 'W added far away and then moved into the gap'),
+                            Job('poly-touching-incremental', 'C03_poly.cpp', [], ['libavoid'], time_limit=1200, bounds='routed polyline connector from (x,-20), x in [-24,-16], to (70,70) past the three touching shapes, W added second')]}
 JOBS['C05'] = {'quick': SCENES_Q, 'thorough': []}
 
 # ----------------------------------------------------------------------------------------------- C17
@@ -132,10 +138,12 @@ JOBS['C19'] = {
     'quick': [
         dec('peel-n4', 0, 4, bounds='dialect::peel on every connected simple graph with 4 nodes (all 64 edge subsets, disconnected ones excluded by the precondition)'),
         dec('conncomps-n4', 1, 4, bounds='Graph::getConnComps on every simple graph with 4 nodes (64 edge subsets)'),
+        dec('symmtree-n6', 2, 6, bounds='Tree::symmetricLayout (all 4 growth directions) on every rooted labelled tree with 6 nodes (parent choices, 120 trees), node sizes symbolic integers in [2,30]^2'),
     ],
     'thorough': [
         dec('peel-n5', 0, 5, bounds='dialect::peel on every connected simple graph with 5 nodes (1024 edge subsets)'),
         dec('conncomps-n5', 1, 5, bounds='getConnComps on every simple graph with 5 nodes'),
+        Job('symmtree-n8-south', 'C19_decomp.cpp', ['-DPART=2', '-DNN=8', '-DDIR=1'], DIALECT_LIBS, bounds='Tree::symmetricLayout (growth SOUTH) on every rooted labelled tree with 8 nodes (5040 parent arrays), symbolic node sizes', time_limit=3000),
     ],
 }
 ASSUMPTIONS['C19'] = ['peel is specified for connected graphs (disconnected inputs trip its internal assertion: precondition, see DESIGN.md 7.4)',
@@ -149,8 +157,14 @@ JOBS['C09'] = {
     'quick': [
         ovl('gen-n2', 0, 2, bounds=B_OVL + '2 rectangles; generateX/YConstraints acyclic + two-stage universally quantified placement claim (placements any multiples of 1/2 in [-12,18])'),
         ovl('remove-n2', 1, 2, bounds=B_OVL + '2 rectangles; removeoverlaps(rs)'),
+        ovl('remove-n2-fixed0', 2, 2, ['-DFIXED=0'], bounds=B_OVL + '2 rectangles, rectangle 0 fixed; removeoverlaps(rs,{0},false)'),
     ],
-    'thorough': [],
+    'thorough': [
+        ovl('gen-n3', 0, 3, bounds=B_OVL + '3 rectangles; constraint generation + two-stage placement claim', time_limit=1500),
+        ovl('remove-n3', 1, 3, bounds=B_OVL + '3 rectangles; removeoverlaps(rs)', time_limit=1500),
+        ovl('remove-n3-fixed02', 2, 3, ['-DFIXED=0', '-DFIXED2=2'], bounds=B_OVL + '3 rectangles, rectangles 0 and 2 fixed (assumed disjoint); removeoverlaps(rs,{0,2},false)', time_limit=1500),
+        ovl('remove-n3-fixed02-third', 2, 3, ['-DFIXED=0', '-DFIXED2=2', '-DTHIRD=true'], bounds=B_OVL + 'same with the third pass', time_limit=1500),
+    ],
 }
 ASSUMPTIONS['C09'] = ['rectangles have positive width and height (generateYConstraints asserts minX < maxX)']
 
@@ -167,8 +181,8 @@ ASSUMPTIONS['C07'] = ['the claim is about the projection layer (projectOntoCCs /
 def feas(name, nr, flags, **kw):
     return Job(name, 'C08_feasible.cpp', ['-DNR=%d' % nr] + ['-D' + f for f in flags], COLA_LIBS, exclude=('libcola/output_svg.cpp',),
                bounds='ConstrainedFDLayout::makeFeasible, %d rectangles (sizes 10x6, 14x8, 18x10) with integer centres in [0,8]^2 (always overlapping initially), options: %s' % (nr, ' '.join(flags)), **kw)
-JOBS['C08'] = {'quick': [feas('feasible-n2-overlap', 2, ['OVERLAP']), feas('feasible-n2-overlap-sep', 2, ['OVERLAP', 'SEP'])],
-               'thorough': [feas('feasible-n3-overlap', 3, ['OVERLAP']), feas('feasible-n3-cluster', 3, ['OVERLAP', 'CLUSTER']), feas('feasible-n3-exempt', 3, ['OVERLAP', 'EXEMPT'])]}
+JOBS['C08'] = {'quick': [feas('feasible-n2-overlap', 2, ['OVERLAP']), feas('feasible-n2-overlap-sep', 2, ['OVERLAP', 'SEP']), feas('feasible-n3-exempt', 3, ['OVERLAP', 'EXEMPT'], time_limit=400), feas('feasible-n2-pinned', 2, ['OVERLAP', 'SEP', 'SEPEQ', 'SEPY'], max_steps=2000000)],
+               'thorough': [feas('feasible-n3-overlap', 3, ['OVERLAP']), feas('feasible-n3-cluster', 3, ['OVERLAP', 'CLUSTER']), feas('feasible-n3-pinned', 3, ['OVERLAP', 'SEP', 'SEPEQ', 'SEPY'])]}
 ASSUMPTIONS['C08'] = ['claim covers makeFeasible() (the feasibility phase); the subsequent run() descent uses sqrt of symbolic distances and is outside the executor arithmetic; run() re-projects onto the same constraints after every step (composition stated, not proved)']
 
 # ----------------------------------------------------------------------------------------------- C20
@@ -194,7 +208,8 @@ ASSUMPTIONS['C20'] = ['"irrespective of what was allocated in between" is modell
 
 # ----------------------------------------------------------------------------------------------- C06
 JOBS['C06'] = {
-    'quick': [Job('history-1step', 'C06_incremental.cpp', ['-DNSTEPS=1'], ['libavoid'], bounds='orthogonal Router, rectangle A=(20,20,60,60), connector with source in [0,10]x[30,50] and destination in [100,110]x[30,50]; every 1-step history from {move A by (dx,dy) in [-12,12]x[-45,45], delete A, add B=(70,10,90,70), move source to [0,10]x[0,80], empty transaction}')],
+    'quick': [Job('history-1step-straight', 'C06_incremental.cpp', ['-DNSTEPS=1', '-DA_ASIDE'], ['libavoid'], bounds='as history-1step, but A=(200,100,240,140) lies far aside (no shape side projects onto the straight line), so the initial route can be one straight segment (aligned endpoints are a branch boundary); then every 1-step history'),
+              Job('history-1step', 'C06_incremental.cpp', ['-DNSTEPS=1'], ['libavoid'], bounds='orthogonal Router, rectangle A=(20,20,60,60), connector with source in [0,10]x[30,50] and destination in [100,110]x[30,50]; every 1-step history from {move A by (dx,dy) in [-12,12]x[-45,45], delete A, add B=(70,10,90,70), move source to [0,10]x[0,80], empty transaction}')],
     'thorough': [Job('history-2steps', 'C06_incremental.cpp', ['-DNSTEPS=2'], ['libavoid'], bounds='same scene, every 2-step history (25 operation sequences, symbolic parameters)')],
 }
 ASSUMPTIONS['C06'] = ['orthogonal routing only (polyline costs need sqrt of symbolic values); documented preconditions respected: no add+delete of one shape in a transaction, endpoints never inside a shape']
@@ -262,7 +277,7 @@ ASSUMPTIONS['C12'] = ['3 terminals, no obstacles between them, one hyperedge; la
 # ----------------------------------------------------------------------------------------------- C13
 TOPO_LIBS = ['libvpsc', 'libcola', 'libavoid', 'libtopology']
 def topo(name, conf, axis, mover=2, **kw):
-    return Job(name, 'C13_topology.cpp', ['-DCONF=%d' % conf, '-DAXIS=%d' % axis, '-DMOVER=%d' % mover], TOPO_LIBS, exclude=('libcola/output_svg.cpp',), libdefs=['-DNDEBUG'], relax_int=False, **kw)
+    return Job(name, 'C13_topology.cpp', ['-DCONF=%d' % conf, '-DAXIS=%d' % axis, '-DMOVER=%d' % mover], TOPO_LIBS, exclude=('libcola/output_svg.cpp',), libdefs=['-DNDEBUG'], **kw)
 B_TOPO = 'three rectangles, one straight edge between the centres of nodes 0 and 1; the third node gets ANY integer desired position in [-80,200] in the chosen axis; TopologyConstraints::solve() iterated to completion; '
 JOBS['C13'] = {
     'quick': [topo('bend-conf1-x', 1, 0, bounds=B_TOPO + 'configuration of libtopology/tests/simple_bend test3, horizontal')],
@@ -270,3 +285,10 @@ JOBS['C13'] = {
                  topo('bend-conf1-y', 1, 1, bounds=B_TOPO + 'test3, vertical')],
 }
 ASSUMPTIONS['C13'] = ['the libraries are compiled with -DNDEBUG for this check (IR and native replay alike): libtopology\'s debug assertions re-check the geometry with divisions by values that are only known up to rounding, which the executor cannot bound; the harness asserts the property itself instead', 'force computation (compute_forces: sqrt of symbolic lengths) is outside the executor arithmetic: desired positions are supplied symbolically instead, which covers every move a force could request in one axis; 3 nodes, 1 edge']
+
+# ----------------------------------------------------------------------------------------------- C04
+JOBS['C04'] = {
+    'quick': [Job('poly-1rect-left', 'C04_polyline.cpp', ['-DSYLO=0', '-DSYHI=80'], ['libavoid'], bounds='PolyLineRouting, rectangle (20,20)-(60,60), source (0, y) for ANY integer y in [0,80], destination (80,40), penalties 0: route valid and no longer than every valid path through <= 2 corners')],
+    'thorough': [],
+}
+ASSUMPTIONS['C04'] = ['one rectangle; the source moves on a line (one symbolic coordinate); sqrt is modelled as a fresh non-negative real r with r*r = x plus a rounding-error bound']
